@@ -337,6 +337,17 @@ def check_bits(case, ctx: Ctx):
         for b in cnt:
             if exp.get(b, 0.0) <= 0:
                 ctx.fail(C, "sample_outside_support", b)
+    # joint distribution: detection errors flip each bit independently
+    from props.c20 import joint_with_errors
+
+    jd = joint_with_errors(exp, eps, epsp)
+    for b in set(jd) | set(cnt):
+        pj = jd.get(b, 0.0)
+        g = cnt.get(b, 0) / shots
+        sig = math.sqrt(max(pj * (1 - pj), 1e-12) / shots)
+        if abs(g - pj) > 7 * sig + 3e-3:
+            ctx.fail(C, "detection_error:joint_distribution",
+                     f"P({b}) sampled {g:.4f}, expected {pj:.4f} (eps={eps}, eps'={epsp})")
 
 
 # ------------------------------------------------------------------ SPAM (legacy emulator + V2)
@@ -351,6 +362,7 @@ def spam_cases(draw):
         epsp=draw(st.sampled_from([0.0, 0.0, 0.1, 0.25])),
         runs=draw(st.sampled_from([200, 400])), spr=draw(st.sampled_from([5, 10])),
         seed=draw(st.integers(0, 2**31 - 1)),
+        deph=draw(st.sampled_from([0.0, 0.0, 0.2, 1.0])),
     )
 
 
@@ -417,23 +429,39 @@ def check_spam(case, ctx: Ctx):
         e = float(np.real(ctx.must(lambda: res.expect([proj]), C, "expect")[0][-1]))
         if abs(e - pe) > 1e-4:
             ctx.fail(C, "legacy:expect_with_detection_errors", f"<n_0> = {e} vs {pe}")
-    # V2 backend: averaged density matrix over the preparation configurations
+    # V2 backend: averaged density matrix over the preparation configurations, without and
+    # with a dissipative channel (the solver then returns density matrices per configuration)
     if eta > 0:
+        deph = case.get("deph", 0.0)
+        extra = {"dephasing_rate": deph} if deph else {}
+        p_ref, q_ref = pexc, q
+        if deph:
+            ctx.label("prep_errors+dephasing")
+            dm = ctx.must(lambda: QutipEmulator.from_sequence(seq, config=SimConfig.from_noise_model(
+                NoiseModel(dephasing_rate=deph))).run().get_final_state(), C, "dephasing-only run")
+            dd = np.real(np.diag(dm.full())).reshape([2] * n)
+            p_ref = float(np.sum(np.take(dd, 0, axis=0)))
+            q_ref = (1 - eta) * p_ref
         np.random.seed(case["seed"] % (2**32))
         cfg = QutipConfig(observables=[StateResult()], noise_model=NoiseModel(
-            state_prep_error=eta, p_false_pos=eps, p_false_neg=epsp, runs=R, samples_per_run=S))
+            state_prep_error=eta, p_false_pos=eps, p_false_neg=epsp, runs=R, samples_per_run=S, **extra))
         r2 = ctx.must(lambda: QutipBackendV2(seq, config=cfg).run(), C, "V2 run with SPAM")
         rho = r2.state[-1].to_qobj()
         m = rho.full()
+        if m.shape[1] == 1:
+            m = m @ m.conj().T
         if abs(np.trace(m) - 1) > solver_tol(case["d"]):
-            ctx.fail(C, "v2:trace", f"{np.trace(m)}")
+            ctx.fail(C, "v2:trace" + (":dissipative" if deph else ""),
+                     f"Tr rho = {np.trace(m).real:.6f} (eta={eta}, dephasing {deph}, runs={R})")
+        if np.max(np.abs(m - m.conj().T)) > 1e-9 or np.linalg.eigvalsh((m + m.conj().T) / 2).min() < -solver_tol(case["d"]):
+            ctx.fail(C, "v2:not_a_state", "")
         diag = np.real(np.diag(m)).reshape([2] * n)
         for i in range(n):
             pr = float(np.sum(np.take(diag, 0, axis=i)))  # index 0 = r
-            sd = math.sqrt(eta * (1 - eta) / R) * pexc
-            if abs(pr - q) > 7 * sd + 2e-3:
+            sd = math.sqrt(eta * (1 - eta) / R) * p_ref
+            if abs(pr - q_ref) > 7 * sd + 2e-3:
                 ctx.fail(C, "v2:rydberg_population_with_prep_errors",
-                         f"atom {i}: <n> = {pr:.4f}, expected {q:.4f} (eta={eta}, runs={R})")
+                         f"atom {i}: <n> = {pr:.4f}, expected {q_ref:.4f} (eta={eta}, dephasing {deph}, runs={R})")
 
 
 # ------------------------------------------------------------------ V2 vs legacy
